@@ -50,6 +50,11 @@ def run(ctx, replay):
     if thorough:
         exe_ts = tc.build(True)
         tc.run_many(ctx, exe_ts, "thread-safe", "c12", cases(ctx.rng, 12, thorough))
+    # the same workloads run by the members of one OpenMP team (g++ -fopenmp build, ASan/UBSan, no TSan), plus exact global
+    # storage bookkeeping after the join
+    exe_omp = tc.build_omp()
+    omp_cases = [(T, ws, min(rounds, 120)) for (T, ws, rounds) in cases(ctx.rng, 12 if thorough else 6, thorough)]
+    tc.run_many(ctx, exe_omp, "openmp-team", "c12omp", omp_cases, workers=2)
     # deterministic schedules on real threads vs the Lean machine (stack protocol, recording, private arrays)
     nsched = 400 if thorough else 120
     tc.run_sched_batch(ctx, exe, "default", "default", tc.sched_cases(ctx.rng, nsched, shared=False),
